@@ -124,13 +124,8 @@ Proof. rewrite map_app. reflexivity. Qed.
 
 Lemma bits_of_snoc (grp : list (net P)) nt i : n_index nt = Some i ->
   bits_of (grp ++ [nt]) = bits_of grp ++ [(i, n_pins nt)].
-Proof. intro H. unfold bits_of. rewrite map_app. cbn [map]. rewrite H. reflexivity. Qed.
+Proof. intro H. unfold bits_of. rewrite flat_map_app. cbn [flat_map]. rewrite H, app_nil_r. reflexivity. Qed.
 
-Lemma idxs_bits_in (grp : list (net P)) (i : N) : In i (idxs (bits_of grp)) ->
-  exists g, match n_index g with Some i0 => i0 | None => 0%N end = i /\ In g grp.
-Proof.
-  unfold idxs, bits_of. rewrite map_map. cbn [fst]. intro H. apply in_map_iff in H. exact H.
-Qed.
 
 (* what denote_conn gives *)
 Lemma dc_names_iff nets s k : denote_conn nets s -> (In k (map e_name s) <-> In k (map key_name nets)).
@@ -213,7 +208,7 @@ Proof.
   destruct (find_name_some _ _ _ Fn) as [Hin Hen].
   destruct (dc_entry _ _ _ Hdc Hin) as (a & rest & G & Ha & Hka & Hid & Hcl).
   assert (Hkk : key_name a = key_name nt) by (rewrite Hka; exact Hen).
-  destruct (proj2 (Hc a Ha) Hkk) as (ia & j & Hia & _ & _).
+  destruct (proj2 (Hc a Ha) Hkk) as (ia & j & Hia & _).
   rewrite Hia in Hcl.
   exists e. split; [reflexivity|]. split.
   { unfold cab_is_array. rewrite (proj1 Hcl). apply orb_true_r. }
@@ -254,12 +249,7 @@ Proof.
     split; [exact Hid|]. rewrite Hia.
     change (a :: rest ++ [nt]) with ((a :: rest) ++ [nt]).
     rewrite (bits_of_snoc (a :: rest) nt i Hi).
-    apply cab_inv_step; [exact Hcl|].
-    intro Hmem. apply idxs_bits_in in Hmem. destruct Hmem as (g & Eg & Hg).
-    rewrite <- G in Hg. apply group_in in Hg. destruct Hg as [Hg1 Hg2].
-    assert (Hgk : key_name g = key_name nt) by (rewrite Hg2; exact Hen).
-    destruct (proj2 (Hc g Hg1) Hgk) as (ig & jg & Hig & Hjg & Hneq).
-    rewrite Hig in Eg. rewrite Hi in Hjg. inversion Hjg; subst jg. apply Hneq. exact Eg.
+    apply cab_inv_step. exact Hcl.
 Qed.
 
 (* ------------------------------------------------------------------------------------------ *)
@@ -281,7 +271,7 @@ Proof.
   - (* key seen before: the net is a bit, merged *)
     assert (Hsome : exists i, index = Some i).
     { apply in_map_iff in Hold. destruct Hold as (a & E & Ha).
-      destruct (proj2 (Hc a Ha) E) as (ia & j & _ & Hj & _). rewrite Hidx in Hj. exists j. exact Hj. }
+      destruct (proj2 (Hc a Ha) E) as (ia & j & _ & Hj). rewrite Hidx in Hj. exists j. exact Hj. }
     destruct Hsome as [i Ei]. rewrite Ei in Hidx, Hkn, Hki, NB. clear Ei.
     destruct (merge_case done s0 (ident, name, w) i Hdc Hc Hidx Hold) as (e & Fn & Harr & Hd).
     rewrite Hkn in Fn. rewrite Hpins in Hd.
@@ -297,7 +287,7 @@ Proof.
       split; [exact Hne|]. intro E. apply Hne. apply (proj1 (Hc a Ha)). exact E. }
     destruct index as [i|].
     + destruct (append_case done s0 (ident, name, w) (mkcab i true [w]) Hdc Hfr) as [F Hd].
-      { rewrite Hidx. unfold bits_of. cbn [map]. rewrite Hidx, Hpins. apply cab_inv_init. }
+      { rewrite Hidx. unfold bits_of. cbn [flat_map]. rewrite Hidx, Hpins. cbn [app]. apply cab_inv_init. }
       rewrite Hkn, Hki in F, Hd.
       eexists. split; [|exact Hd].
       unfold read_net. rewrite NB.
@@ -359,8 +349,7 @@ Proof.
     rewrite H1. tauto.
   - intro E. apply str_eqb_spec in E. rewrite E in H2. cbn [negb orb] in H2.
     destruct (n_index a) as [i|]; [|discriminate]. destruct (n_index b) as [j|]; [|discriminate].
-    exists i, j. split; [reflexivity|]. split; [reflexivity|].
-    intro Eij. subst j. rewrite N.eqb_refl in H2. discriminate.
+    exists i, j. split; reflexivity.
 Qed.
 
 Lemma nets_okb_spec_gen nets : nets_okb nets = true -> nets_ok nets.
